@@ -433,13 +433,17 @@ class Inliner:
         alternatives of those, a final wildcard or capture, guards)."""
         pre = []
         subj = s.subject
-        if not _simple(subj):
+        if isinstance(subj, ast.Tuple) and all(_simple(e) for e in subj.elts):
+            pass
+        elif not _simple(subj):
             k = next(self.counter)
             name = f"_inl{k}_subject"
             pre.append(ast.copy_location(ast.Assign([ast.Name(name, ast.Store())], subj), s))
             subj = ast.Name(name, ast.Load())
 
-        def test_of(p):
+        TRUE = ast.Constant(True)
+
+        def test_of(p, subj=subj, binds=None):
             if isinstance(p, ast.MatchValue):
                 return ast.Compare(copy.deepcopy(subj), [ast.Eq()], [p.value])
             if isinstance(p, ast.MatchSingleton):
@@ -447,10 +451,25 @@ class Inliner:
             if isinstance(p, ast.MatchClass) and not p.patterns and not p.kwd_patterns:
                 return ast.Call(ast.Name('isinstance', ast.Load()), [copy.deepcopy(subj), p.cls], [])
             if isinstance(p, ast.MatchOr):
-                parts = [test_of(x) for x in p.patterns]
+                parts = [test_of(x, subj, None) for x in p.patterns]
                 if any(x is None for x in parts):
                     return None
                 return ast.BoolOp(ast.Or(), parts)
+            if isinstance(p, ast.MatchAs) and p.pattern is None and binds is not None:
+                if p.name is not None:
+                    binds.append((p.name, subj))
+                return TRUE
+            if isinstance(p, ast.MatchSequence) and isinstance(subj, ast.Tuple) and len(p.patterns) == len(subj.elts) and \
+                    not any(isinstance(x, ast.MatchStar) for x in p.patterns) and binds is not None:
+                # a tuple display of n elements always matches a sequence pattern of n sub-patterns element by element
+                parts = []
+                for sp, el in zip(p.patterns, subj.elts):
+                    t = test_of(sp, el, binds)
+                    if t is None:
+                        return None
+                    if t is not TRUE:
+                        parts.append(t)
+                return TRUE if not parts else parts[0] if len(parts) == 1 else ast.BoolOp(ast.And(), parts)
             return None
         chain, tail = [], None
         for i, c in enumerate(s.cases):
@@ -469,12 +488,20 @@ class Inliner:
                     return None          # a guard that reads the capture: keep the match statement
                 chain.append((c.guard, body))
                 continue
-            t = test_of(p)
+            binds = []
+            t = test_of(p, subj, binds)
             if t is None:
                 return None
+            if binds and c.guard is not None:
+                return None          # the guard may read the captures: keep the match statement
+            if t is TRUE:
+                t = ast.Constant(True)
             if c.guard is not None:
-                t = ast.BoolOp(ast.And(), [t, c.guard])
-            chain.append((t, list(c.body)))
+                t = ast.BoolOp(ast.And(), [t, c.guard]) if not (isinstance(t, ast.Constant) and t.value is True) else c.guard
+            body = list(c.body)
+            for name, el in reversed(binds):
+                body.insert(0, ast.copy_location(ast.Assign([ast.Name(name, ast.Store())], copy.deepcopy(el)), c.body[0]))
+            chain.append((t, body))
         node = tail or []
         for t, body in reversed(chain):
             node = [ast.If(t, body, node)]
